@@ -157,6 +157,16 @@ Q2ManyFinish == steps = MaxSteps /\ steps' = steps + 1 /\ UNCHANGED <<conn, sess
 Q2ManySpec == QosInit /\ [][Q2ManyNext \/ Q2ManyFinish]_vars
 EmitMany == steps <= MaxSteps \/ PrintT(ToJson(hist))
 
+(* C12 / C05, broker as sender with many deliveries outstanding: the witness acknowledges slowly (the oldest unanswered
+   QoS 1 delivery, one PUBACK for about three deliveries), so the queue of requests the broker keeps for it - filled by the
+   PUBLISHER's processor during the fan-out - grows beyond its 16 entries after its head has moved.  What a slow subscriber
+   does must not hurt the publisher.  Long random behaviours generated with TLC -simulate.                         *)
+FwdManyNext == steps < MaxSteps /\
+  \/ QosConn
+  \/ \E n \in 1..3 : Publish(c1, <<"a">>, 1, FALSE, "m" \o ToString((steps % 40) + 1), (steps % 40) + 1, FALSE)
+  \/ SubAckOther(c2, "PUBACK")
+FwdManySpec == QosInit /\ [][FwdManyNext \/ Q2ManyFinish]_vars
+
 (* C12, broker as sender: QoS 1 / QoS 2 deliveries to the witness, which answers with PUBACK / PUBREC / PUBCOMP *)
 FwdNext == steps < MaxSteps /\
   \/ QosConn
@@ -276,7 +286,8 @@ W2 == [on |-> TRUE, t |-> <<"v">>, pl |-> "w2", q |-> 1, r |-> TRUE]
 W3 == [on |-> TRUE, t |-> <<"w">>, pl |-> "", q |-> 2, r |-> FALSE]
 W4 == [on |-> TRUE, t |-> <<"w">>, pl |-> "", q |-> 0, r |-> TRUE]      \* retained will with an empty payload: clears, and is still published
 W5 == [on |-> TRUE, t |-> <<"w">>, pl |-> "MID", q |-> 1, r |-> FALSE]   \* 12,000 bytes: more than a ring minus a read block, less than a ring
-Wills == {NoWill, W1, W2, W3, W4, W5}
+W6 == [on |-> TRUE, t |-> <<"w">>, pl |-> "L125", q |-> 0, r |-> TRUE]   \* 125 bytes: the will's PUBLISH - always encoded from its fields - has a remaining length of exactly 128
+Wills == {NoWill, W1, W2, W3, W4, W5}     \* (W6 is used in WillEofSpec)
 WillInit == Witness(WNames, c2, k2, {<<"#">>}, 2)
 WillNext == steps < MaxSteps /\
   \/ \E cl \in BOOLEAN, w \in Wills : Connect(c1, k1, cl, w)
@@ -285,7 +296,7 @@ WillNext == steps < MaxSteps /\
 WillSpec == WillInit /\ [][WillNext]_vars
 \* the same with a DISCONNECT whose bytes reach the broker together with the end of the stream
 WillEofNext == steps < MaxSteps /\
-  \/ \E cl \in BOOLEAN, w \in {NoWill, W1, W2} : Connect(c1, k1, cl, w)
+  \/ \E cl \in BOOLEAN, w \in {NoWill, W1, W2, W6} : Connect(c1, k1, cl, w)
   \/ \E how \in {"disconnect-eof", "pings-disconnect-eof", "cut"} : End(c1, how)
   \/ Subscribe(c1, 1, << <<<<"v">>, 1>> >>)
 WillEofSpec == WillInit /\ [][WillEofNext]_vars
